@@ -239,7 +239,7 @@ _LOOP_REWRITES = {
     "listener_unix.go": _vk_redirect([("unix.Close(", "vk.Close("), ("socket.Dup(ln.fd)", "vk.Dup(ln.fd)")]),
     "pkg/io/io_linux.go": _vk_redirect([("unix.Writev(", "vk.Writev(")]),
     "pkg/netpoll/poller_epoll_default.go": _vk_redirect(
-        [("unix.EpollCtl(", "vk.EpollCtl("), ("unix.Write(p.efd", "vk.Write(p.efd"), ("unix.Read(p.efd", "vk.Read(p.efd"), ("unix.Close(", "vk.Close("),
+        [("unix.EpollCtl(", "vk.EpollCtl("), ("unix.EpollWait(", "vk.EpollWait("), ("unix.Write(p.efd", "vk.Write(p.efd"), ("unix.Read(p.efd", "vk.Read(p.efd"), ("unix.Close(", "vk.Close("),
          ("b        = (*(*[8]byte)(unsafe.Pointer(&u)))[:]", "b        = []byte{1, 0, 0, 0, 0, 0, 0, 0}")]),
 }
 
@@ -278,14 +278,14 @@ PROPS["C01"] = {
 
 PROPS["C04"] = {
     "level": "other",
-    "level_text": "Bounded symbolic execution of one lifecycle event of the real loop code (eventloop.close/read/wake/closeConns, conn.processIO, the Close/Wake/AsyncWrite task closures run through the real poller queue) from an arbitrary valid connection state, for every close cause, with handlers that close synchronously inside OnTraffic/OnClose, and for requests reaching a closed connection whose descriptor number was re-used; ghost callback counters and the descriptor ledger are the oracle.",
+    "level_text": "Bounded symbolic execution of one lifecycle event of the real loop code (eventloop.close/read/wake/closeConns, conn.processIO, the Close/Wake/AsyncWrite task closures run through the real poller queue) from an arbitrary valid connection state, for every close cause, with handlers that close synchronously inside OnTraffic/OnClose, and for requests reaching a closed connection whose descriptor number was re-used; plus the real reactor functions eventloop.run/orbit with the real Poller.Polling over a scripted epoll_wait (a batch of connection/listener events, then the shutdown task): stale events, accept inside a batch, closeConns on exit; ghost callback counters and the descriptor ledger are the oracle.",
     "level_note": "One event per harness (the representation invariant makes a pass inductive over event histories); interleavings of several goroutines posting close requests are C03's subject (the tasks are executed here in queue order). Trusted: go/ssa lowering, SSA->SMT translation, z3, ghost kernel contract.",
     "design_ref": "DESIGN.md section 5 (loop-step family, C04)",
     "explanation": "Real framework code from go/ssa over the ghost kernel.",
-    "bounds": {"events": 1, "reads_per_event": 1, "writes_per_event": 2},
-    "outside": ["cross-goroutine races between close causes (C03/C05)"],
+    "bounds": {"events": "1 per loop-step harness; reactor harnesses: one epoll_wait batch of <= 2 events + the shutdown wake-up", "reads_per_event": 1, "writes_per_event": 2},
+    "outside": ["cross-goroutine races between close causes (C03/C05)", "batches of more than two events, more than one batch before shutdown"],
     "assumptions": ["ghost kernel contract", "pool contracts (C12)"],
-    "units": [dict(_LOOP_COMMON, name="loop-lifecycle", files=["harness/gnet/vloop_world.go", "harness/gnet/c14_pick.go", "harness/gnet/c04_lifecycle.go"], cfg={"vcfg": {"nodes": 1}})],
+    "units": [dict(_LOOP_COMMON, name="loop-lifecycle", files=["harness/gnet/vloop_world.go", "harness/gnet/c14_pick.go", "harness/gnet/c04_lifecycle.go", "harness/gnet/c04_batch.go"], cfg={"vcfg": {"nodes": 1}})],
 }
 
 PROPS["C02"] = {
@@ -436,7 +436,7 @@ PROPS["C07"] = {
     "bounds": {"events": 1, "writes_per_event": 3},
     "outside": ["enrol branches that need a real *net.TCPConn/UnixConn/UDPConn and the successful hand-off to the loop goroutine", "interleavings with other goroutines opening descriptors (modelled as 'the number is foreign-owned' pre-states)"],
     "assumptions": ["ghost kernel contract"],
-    "units": [dict(_LOOP_COMMON, name="loop-fd", files=["harness/gnet/vloop_world.go", "harness/gnet/c14_pick.go", "harness/gnet/c04_lifecycle.go", "harness/gnet/c07_fd.go"], cfg={"vcfg": {"nodes": 1}})],
+    "units": [dict(_LOOP_COMMON, name="loop-fd", files=["harness/gnet/vloop_world.go", "harness/gnet/c14_pick.go", "harness/gnet/c04_lifecycle.go", "harness/gnet/c04_batch.go", "harness/gnet/c07_fd.go"], cfg={"vcfg": {"nodes": 1}})],
 }
 
 
@@ -445,7 +445,7 @@ def _variant_units():
     # build variant gc_opt (compacting matrix registry) for the lifecycle/descriptor harnesses: thorough tier; the matrix
     # columns are scaled to 2 (overlay rewrite) so that the pre-states stay small
     gc = dict(_LOOP_COMMON, name="loop-lifecycle-gc_opt", tags="gc_opt", tier="thorough",
-              files=["harness/gnet/vloop_world.go", "harness/gnet/c14_pick.go", "harness/gnet/c04_lifecycle.go"],
+              files=["harness/gnet/vloop_world.go", "harness/gnet/c14_pick.go", "harness/gnet/c04_lifecycle.go", "harness/gnet/c04_batch.go"],
               rewrites=dict(_LOOP_REWRITES, **{"internal/gfd/gfd.go": _scale_columns(2)}), cfg={"vcfg": {"nodes": 1}})
     PROPS["C04"]["units"].append(gc)
     PROPS["C07"]["units"].append(dict(gc, name="loop-fd-gc_opt", files=gc["files"] + ["harness/gnet/c07_fd.go"]))
